@@ -439,9 +439,57 @@ func isOddName(n string) bool {
 	return false
 }
 
+func isFuncName(c Case, p string) bool {
+	if _, ok := c.Data[p]; ok {
+		return false
+	}
+	for _, f := range funcNames {
+		if f == p {
+			return true
+		}
+	}
+	return false
+}
+
 func classify(c Case) (bool, []string) {
 	var cls []string
 	add := func(s string) { cls = append(cls, s) }
+	if c.Entry == "" {
+		add("entry:legacy(RenderString | Load.Fill.Render)")
+	} else {
+		add("entry:" + c.Entry)
+		d := c.Deliver
+		if d == "" {
+			d = "fill"
+		}
+		add("deliver:" + d)
+		for _, a := range c.Attrs {
+			if a.Kind == "bind" || a.Kind == "vbind" {
+				switch v := c.lookup(a.Text, 0); v.K {
+				case "rec", "*rec", "post", "url", "time", "outer", "*Money", "Level", "duration", "jsonnum":
+					add("deliver:" + d + "+struct-or-stringer-value")
+				}
+			}
+		}
+	}
+	for _, a := range c.Attrs {
+		switch a.Kind {
+		case "bind", "vbind":
+			if isFuncName(c, a.Text) {
+				add("function-name-as-value:bound-" + map[bool]string{true: "class-or-style", false: "attribute"}[a.Name == "class" || a.Name == "style"])
+			}
+		case "show":
+			if a.Gt == nil && isFuncName(c, a.Text) {
+				add("function-name-as-value:v-show")
+			}
+		case "obj", "vobj":
+			for _, p := range a.Pairs {
+				if p.Src == "path" && isFuncName(c, p.Arg) {
+					add("function-name-as-value:" + a.Name + "-object")
+				}
+			}
+		}
+	}
 	if c.After != "" {
 		add("after-failure:" + c.After)
 		if c.has("interp", "") {
@@ -900,9 +948,15 @@ func scalarForms() []vals.V {
 		n("uint8", "255"), n("uint16", "65535"), n("uint32", "4294967295"), n("uint64", "18446744073709551615"), n("uint", "18446744073709551615"), n("int", "-9223372036854775808"),
 		k("Ratio", "0.1"), k("Ratio", "0"), k("Qty", "5"), k("Qty", "0"), k("Name", "nm"), k("Name", ""), k("Flag", "true"), k("Flag", "false"),
 		k("Level", "3"), k("Level", "0"), k("*Money", "1250"), k("duration", "1500000000"), k("duration", "0"), k("jsonnum", "12.50"), k("jsonnum", "0"),
-		k("bytes", "ab"), k("bytes", ""), k("nilbytes", ""), k("nilmapss", ""),
+		k("bytes", "ab"), k("bytes", ""), k("nilbytes", ""), k("nilmapss", ""), k("url", "https://x.test/a/b?q=1#f"),
 	}
 }
+
+// funcNames are identifiers that name a function of the default function map, or the function
+// every case registers itself (boom), and no variable: as a value they are exactly like an
+// absent variable (bound attribute omitted, class key off, style property not asserted, v-show
+// falsy).
+var funcNames = []string{"title", "upper", "lower", "len", "trim", "default", "json", "escape", "int", "string", "type", "jsonPretty", "formatTime", "boom"}
 
 // postVariants: a record whose collections are nil, empty or filled.
 func postVariants() []vals.V {
@@ -1202,6 +1256,89 @@ func enumerate(rec *ev.Rec, f *findings, shard, shards int) (int, bool) {
 			}
 		}
 	}
+	// entry points x data delivery: whole structs, pointers, Stringers and scalars as the value
+	recM := map[string]vals.V{"Name": vals.Str("n"), "Title": vals.Str("t")}
+	doorVals := []vals.V{{K: "rec", M: recM}, {K: "*rec", M: recM}, postVariants()[2], postVariants()[0], {K: "url", S: "https://x.test/a/b?q=1#f"},
+		{K: "duration", S: "1500000000"}, {K: "jsonnum", S: "12.50"}, {K: "Level", S: "3"}, {K: "*Money", S: "1250"}, {K: "time", S: "86400"},
+		{K: "Ratio", S: "0.1"}, {K: "Flag", S: "false"}, vals.Str("x"), vals.Int(5), vals.Nil(), vals.Bool(false), vals.Num("float32", "0.1")}
+	doorForms := map[string]bool{"two-bound": true, "twin": true, "interp": true, "class-static+obj": true, "style-static+obj": true, "show+static-style": true, "class-static+bind": true}
+	for _, entry := range entries {
+		for _, del := range deliveries {
+			if strings.HasPrefix(entry, "vue-") && del != "fill" {
+				continue // the Vue entry points take the data as an argument
+			}
+			for _, v := range doorVals {
+				for _, fm := range coreForms() {
+					if !doorForms[fm.name] {
+						continue
+					}
+					attrs := []Attr{{Kind: "static", Name: "lang", Text: "en"}, marker()}
+					attrs = append(attrs, fm.attrs("x")...)
+					attrs = append(attrs, Attr{Kind: "static", Name: "data-b", Text: "z w"})
+					each(Case{Tag: "p", Attrs: attrs, Data: baseData(v), Entry: entry, Deliver: del})
+					if !ok {
+						return n, false
+					}
+				}
+			}
+		}
+	}
+	// parser-sensitive containers x entry points: the element is evaluated like anywhere else
+	contForms := map[string]bool{"two-bound": true, "interp": true, "class-static+obj": true, "style-static+obj": true, "show+static-style": true, "lit": true, "multiline-static": true}
+	for _, place := range []string{"noscript", "td", "select", "svg", "tplwrap"} {
+		tag := "p"
+		if t, has := containerTag[place]; has {
+			tag = t
+		}
+		for _, entry := range entries {
+			for _, v := range []vals.V{vals.Str("x"), vals.Bool(false), vals.Int(5), {K: "url", S: "https://x.test/a"}} {
+				for _, fm := range coreForms() {
+					if !contForms[fm.name] {
+						continue
+					}
+					for _, chain := range []string{"", "v-if", "v-else"} {
+						attrs := []Attr{{Kind: "static", Name: "lang", Text: "en"}, marker()}
+						attrs = append(attrs, fm.attrs("x")...)
+						attrs = append(attrs, Attr{Kind: "static", Name: "data-b", Text: "z w"})
+						switch chain {
+						case "v-if":
+							attrs = append(attrs, Attr{Kind: "dir", Name: "v-if", Text: "yes"})
+						case "v-else":
+							attrs = append(attrs, Attr{Kind: "dir", Name: "v-else"})
+						}
+						each(Case{Tag: tag, Place: place, Attrs: attrs, Data: baseData(v), Entry: entry})
+						if !ok {
+							return n, false
+						}
+					}
+				}
+			}
+		}
+	}
+	// identifiers that name a function, not a variable, as the value x every form x the distinct paths
+	for _, fn := range funcNames {
+		for _, fm := range coreForms() {
+			if extendedForm(fm.name) && !run.Thorough() {
+				continue
+			}
+			for _, pl := range corePlacements() {
+				switch pl.name {
+				case "div", "v-if", "v-for", "tplfor", "slot", "v-html":
+				default:
+					continue
+				}
+				attrs := []Attr{{Kind: "static", Name: "lang", Text: "en"}, marker()}
+				attrs = append(attrs, fm.attrs(fn)...)
+				attrs = append(attrs, Attr{Kind: "static", Name: "data-b", Text: "z w"})
+				c := Case{Tag: "p", Attrs: attrs, Data: baseData(vals.Str("x"))}
+				pl.apply(&c)
+				each(c)
+				if !ok {
+					return n, false
+				}
+			}
+		}
+	}
 	// attribute names: every odd name x form x a few values x a few placements
 	for _, name := range oddNames {
 		nameVals := []vals.V{vals.Str("x"), vals.Bool(false), vals.Int(5), vals.Nil(), vals.Bool(true), vals.Str("")}
@@ -1411,6 +1548,10 @@ func (b *builder) anyPath(label string, loopVar bool) string {
 	if loopVar && chance(b.t, label+"-it", 15) {
 		return forVar
 	}
+	// (not on <template>: its own plain attributes - title="x" - are variables to its bindings)
+	if b.c.Tag != "template" && chance(b.t, label+"-fn", 6) {
+		return pick(b.t, label+"-fname", funcNames) // never a key of the data
+	}
 	if chance(b.t, label+"-post", 8) {
 		// a collection field of a record: nil, empty or filled
 		if _, ok := b.c.Data["p"]; !ok {
@@ -1552,7 +1693,10 @@ func genCase(f *findings, table []vals.V) func(t *rapid.T) Case {
 		// placement and structural directives
 		if mode != "v-keep" {
 			c.Place = pick(t, "place", []string{"", "", "", "", "", "", "root", "pre", "slot", "slot#", "tplfor", "tplfor", "tplfor",
-				"sloop", "sloop", "sloop#", "stwice", "stwice", "sdloop", "sdplain"})
+				"sloop", "sloop", "sloop#", "stwice", "stwice", "sdloop", "sdplain", "noscript", "noscript", "td", "select", "svg", "tplwrap"})
+			if tg, forced := containerTag[c.Place]; forced && mode != "v-keep" {
+				c.Tag = tg
+			}
 		}
 		multi := multiSlot[c.Place]
 		b.scoped = c.scoped()
@@ -1809,6 +1953,22 @@ func genCase(f *findings, table []vals.V) func(t *rapid.T) Case {
 			}
 		}
 		c.Attrs = rapid.Permutation(attrs).Draw(t, "order")
+		if c.Place == "svg" {
+			var kept []Attr
+			for _, a := range c.Attrs {
+				if foreignAdjusted(a.Name) {
+					continue // namespaced by the parser in foreign content
+				}
+				kept = append(kept, a)
+			}
+			c.Attrs = kept
+		}
+		if e := rapid.IntRange(0, 13).Draw(t, "entry"); e >= 6 {
+			c.Entry = entries[e-6]
+			if !strings.HasPrefix(c.Entry, "vue-") {
+				c.Deliver = pick(t, "deliver", deliveries)
+			}
+		}
 		switch rapid.IntRange(0, 9).Draw(t, "after") {
 		case 8:
 			c.After = "pool"
